@@ -106,6 +106,10 @@ def tlc(ctx, d, module, cfg, workers=None, timeout=600, simulate=None, depth=Non
     if dfs:
         jto += " -Dtlc2.tool.queue.IStateQueue=StateDeque"
     jto += " -Xss256m"
+    # TLC unpacks its standard modules into java.io.tmpdir on every start: keep that inside the run's scratch directory, which is removed
+    jt = os.path.join(d, "jtmp")
+    os.makedirs(jt, exist_ok=True)
+    jto += " -Djava.io.tmpdir=" + jt
     e["JAVA_TOOL_OPTIONS"] = jto.strip()
     t = time.time()
     try:
